@@ -265,6 +265,9 @@ C19_Delivers(w1, e, w2, o1, o2) ==
              /\ w2.rew.prevBal = BankBal(w2, "reward", "kusd")
              /\ DecLe(DecSub(AccSum(w2), AccSum(w1)), DecOfInt(folded))
              /\ DecLt(DecSub(DecOfInt(folded), DecSub(AccSum(w2), AccSum(w1))), One)
+       \* ... measured without the reward contract's own record: at least what reached the contract in this transaction is credited
+       /\ (w1.rew.total > 0 /\ IndexSane(w1)) =>
+             DecLt(DecOfInt(BankBal(w2, "reward", "kusd") - BankBal(w1, "reward", "kusd")), DecAdd(DecSub(AccSum(w2), AccSum(w1)), One))
        /\ w2.hub.lastIdx = w1.now
 C19_Executes(w1, e) ==
   (ExecIs(e, "hub", "update_global_index") /\ TopTx(e).sender \in NonEmpty({w1.hubCfg.updater}) /\ TopTx(e).msg.hooks = 0
@@ -273,8 +276,7 @@ C19_Executes(w1, e) ==
      /\ w1.hubCfg.dispatcher = "dispatcher" /\ w1.hubCfg.registry = "registry" /\ w1.hubCfg.bsei = "bsei" /\ w1.hubCfg.stsei = "stsei"
      /\ w1.disp.hub = "hub" /\ w1.disp.reward = "reward" /\ w1.disp.swap = "swap" /\ w1.disp.oracle = "oracle"
      /\ w1.disp.stDenom = "usei" /\ w1.disp.bDenom = "kusd" /\ w1.rew.hub = "hub" /\ w1.rew.rdenom = "kusd" /\ w1.reg.hub = "hub"
-     /\ SeqContains(w1.disp.swapDenoms, "usei") /\ SeqContains(w1.disp.swapDenoms, "kusd")
-     /\ w1.rew.prevBal <= BankBal(w1, "reward", "kusd"))
+     /\ SeqContains(w1.disp.swapDenoms, "usei") /\ SeqContains(w1.disp.swapDenoms, "kusd"))
   => e.ok \/ K1Failure(e)
 C19_Step(w1, e, w2, o1, o2) == C19_Delivers(w1, e, w2, o1, o2) /\ C19_Executes(w1, e)
 
